@@ -167,7 +167,8 @@ def loadSession (toks : List String) : SessRes :=
           | _ => false)
         let mismatch := objR.any (fun (o, created, ref) => created && (o.isSome == ref))
         let objs := objR.filterMap (·.1)
-        let cfg : SessCfg := { fdtScheme := doti.sch, fdtP := doti.p, w := w, objs := objs, fdts := fdts }
+        -- `Sender::new` treats interleave_blocks = 0 as 1 (/repo 0805b7e)
+        let cfg : SessCfg := { fdtScheme := doti.sch, fdtP := doti.p, w := max 1 w, objs := objs, fdts := fdts }
         if mismatch then .out "refusal-mismatch" none else
         -- block creation failing on a first block: debug_assert panic of Sender::read
         if objs.any (fun o => senderPanics (objEnc cfg o false)) || fdts.any (fun f => senderPanics (fdtEnc cfg f)) then
